@@ -27,6 +27,13 @@ THEOREMS = [
     'C04.rotate_lattice_index', 'C04.rep_in_bounds', 'C04.keptPred_imageOf', 'C04.rotate_count',
     'C04.rotate_total', 'C04.rotate_check_passes', 'C04.rotate_total_rat',
     'C04.rotate_identity_shortcut', 'C04.rotate_ok',
+    # the integer test in front of rotate (np.allclose(uvws, rint(uvws))): an index within the tolerance of an integer is
+    # that integer from either side, exact integers pass, whatever passes is within the tolerance, the rest is refused
+    'C04.acceptIndex_sound', 'C04.acceptIndex_nearest', 'C04.acceptIndex_int', 'C04.acceptIndex_refuses',
+    'C04.rotateF_of_int', 'C04.rotateF_within_tolerance',
+    # the lattice-site test of conventional_to_primitive is periodic (atoms listed on far faces / in other images)
+    'C04.onSite_image', 'C04.checkSites_periodic', 'C04.checkBasis_periodic', 'C04.checkSites_true',
+    'C04.checkSites_same_type',
 ]
 PARTIAL = {
     'normalize_after_rotate': 'the final normalize step (rebuild the box LAMMPS-compatible, flip a left-handed cell, '
@@ -36,25 +43,38 @@ PARTIAL = {
                               'returned transform is a proper rotation taking the requested lattice vectors U.vects onto '
                               'the result cell and every atom onto an original atom',
     'cell_conversions': 'conventional<->primitive conversions are rotate() by the centering tables (mutually inverse by '
-                        'C16 centering_inverse) followed, for c2p, by cutting 1/8 (1/27) of the cell out with a float '
-                        'smallshift; that cut is not modelled in Lean; the oracle checks on the real code, for all 8 '
-                        'settings, that the primitive cell is the same crystal and that p2c(c2p(cell)) returns the '
-                        'original cell vectors, identity composite transform and the original atoms in place',
+                        'C16 centering_inverse) preceded by the lattice-site test (modelled: checkBasis, periodic by '
+                        'checkBasis_periodic, tied by the correspondence batch `basis`) and followed, for c2p, by cutting '
+                        '1/8 (1/27) of the cell out with a float smallshift; that cut is not modelled in Lean; the oracle '
+                        'checks on the real code, for all 8 settings (+ "t") on random compatible cells with atoms stored '
+                        'on far faces / outside, that the primitive cell is the same crystal and that p2c(c2p(cell)) '
+                        'returns the original cell vectors, identity composite transform and the original atoms in place',
 }
 RULE = ('random cells of every crystal family + triclinic (dyadic-grid vectors, non-zero origins), 1-4 atoms with '
-        'relative coordinates on a 1/8 grid incl. faces, 1-3 types, scalar + vector + 3x3 tensor + unique integer '
-        'per-atom properties; multiplier tuples positive/negative/two-sided; integer 3x3 U with entries in [-2,2] '
-        '(hexagonal 3x4 too), det != 0 of either sign; a batch with one atom moved outside the box (refusals must '
-        'coincide); distinct = distinct canonical request line; non-trivial = more than one replica / U != identity')
+        'relative coordinates on a 1/8 grid incl. faces (a quarter of the rotate cases: coordinate 0 stored as 1.0, the far '
+        'face), a third of the rotate cases with 1-2 more atoms 1e-7..2e-4 (relative) off a face / edge / corner of the NEW '
+        'cell on either side, 1-3 types, scalar + vector + 3x3 tensor + unique integer per-atom properties; multiplier tuples '
+        'positive/negative/two-sided; integer 3x3 U with entries in [-2,2], det != 0 of either sign, handed to rotate as int '
+        'list / int array / float array / floats one ulp or up to 0.45 acceptance tolerances off on either side / 3 or more '
+        'tolerances off (refusal) / hexagonal 4-index sets (the library\'s own vector3to4 thirds, integer sets, sets with '
+        'u+v+t != 0); a batch with one atom moved outside the box (refusals must coincide); conversions: random cells of '
+        'every family compatible with each of the 8 settings (and the self-detecting "t"), 1-3 motif atoms per lattice '
+        'point, atoms stored inside / on far faces, edges, corners / one cell vector outside, origins; the lattice-site test '
+        'also on spoiled cells; distinct = distinct canonical request line; non-trivial = more than one replica / U != '
+        'identity')
 ASSUMPTIONS = ['numpy.linalg.inv and float arithmetic of the implementation are within rtol 1e-9 of the exact value on '
                'the generated (well-conditioned, dyadic) cells',
                'the float tolerance ladder of rotate (isclose to 0/1) is the identity in exact arithmetic',
-               'rotate_count / rotate_total / rotate_check_passes assume every atom inside the box (0 <= s < 1, what '
-               'System.wrap establishes) and a non-degenerate box; for atoms outside the box both the code and the '
+               'rotate_count / rotate_total / rotate_check_passes assume every atom inside the box, far faces included '
+               '(0 <= s <= 1) and a non-degenerate box; for atoms outside the box both the code and the '
                'model (rotateChecked) may refuse with the expected-count test ("Filtering failed") - compared in the '
                'correspondence',
                'System.normalize (applied by rotate last) is covered by property C05; results are compared modulo '
-               'the returned transform']
+               'the returned transform',
+               'acceptIndex_nearest / rotateF_within_tolerance: the acceptance tolerance atol + rtol|n| is below 1/2 '
+               '(|n| < 49999 for the numpy defaults), so rint never meets an exact half among accepted values',
+               'checkSites: the float test dmag(atom, site) ~ 0 (atol 1e-8) is "equal modulo the lattice" in exact '
+               'arithmetic; System.dmag reaches one cell vector beyond the box (C01)']
 TRUSTED = ['numpy in the correspondence run',
            'Mathlib (Submodule.natAbs_det_equiv: Smith normal form over Z) - kernel-checked, standard axioms only']
 MANIFEST = {
@@ -67,7 +87,10 @@ MANIFEST = {
             'every coset (sublattice index via Mathlib Smith normal form) and the bounding supercell contains all of '
             'them, hence each original atom inside the box has exactly |det U| distinct images kept, none missed, the '
             'kept list is a permutation of the per-atom image lists, total = natoms x |det U| and the code\'s '
-            'expected-count test never fails. Tied to the code by an exact/toleranced correspondence run on supersize '
+            'expected-count test never fails (atoms on far faces, s = 1, included). The integer test in front of rotate '
+            '(an index within the tolerance of an integer becomes that integer, from either side) and the periodic '
+            'lattice-site test of conventional_to_primitive are modelled and proved too. Tied to the code by an '
+            'exact/toleranced correspondence run on supersize '
             'and rotate (incl. refusals) and an exact lattice-arithmetic oracle on the real results (requested vectors, '
             'proper transform, payload incl. tensors, cell conversions undoing one another).',
     'note': 'Trusted: Lean kernel + standard axioms; the correspondence harness; float rounding bounded by rtol 1e-9. '
